@@ -13,6 +13,7 @@ func TestReplay(t *testing.T) {
 	if *replayFlag == "" {
 		t.Skip("no -replay file")
 	}
+	openAllGates()
 	rf, v := ReplayOne(*replayFlag)
 	if v == nil {
 		fmt.Println("REPLAY-OK", *replayFlag)
